@@ -38,6 +38,10 @@ PLAN = dict(
                     "C12_fun2core_pre_check (every fun2core output satisfies pre_check, no guard), C12_uniquify_preserves_typing, "
                     "C12_focus_preserves_typing (wt_core + pre_check + xtor_tys_ok + names_le -> wt_fs + unique_binders + ids_bounded + gub), "
                     "C12_focus_names_ok, C12_focus_decls_ok; H_focus_wt and H_fun2core_wt are REFUTED as they stand "
+                    "[checker output => guard, PROVED: C12_checked_program_in_tyguard (prog_names_ok src -> no_cont_decl src -> check src = COk p -> "
+                    "xtor_tys_guard p -> prog_tyguard p; induction over check_term_gen for all term forms, Proof/CheckTyGuard*.v) and "
+                    "C12_pipeline_wt_of_check (the composition with acceptance by the checker as only typing hypothesis); both extra guards are "
+                    "needed: C12_checked_program_in_tyguard_closure_guard_needed, ..._cont_guard_needed] "
                     "(C12_focus_preserves_typing_unguarded_refuted; C12_fun2core_preserves_typing_refuted_before_fix by a call of main (repaired by f929eb7); "
                     "C12_regression_old_check_main_result = the former finding main-non-integer-result as a regression theorem about the checker before fix 5b8c76f: "
                     "a main of a non-integer type was accepted and its exit operand ill-typed); C12_pipeline_wt_source composes everything "
